@@ -136,8 +136,9 @@ def C08_full : Prop :=
 
 /-- CHUNK INDEPENDENCE (up to the end-of-stream error class): any partition of the stream into short reads — down to
 one byte at a time, zero-length reads in between, end-of-stream together with or after the last bytes — and any
-read-buffer size give the same headers, messages, listener events, CRCs and errors, where the two end-of-stream
-errors count as one; and nothing panics. -/
+read-buffer size give the same headers, messages (listener events with, for every message, the bytes of each field
+and developer field as handed to the value decoder), CRCs and errors, where the two end-of-stream errors count as
+one; and nothing panics. -/
 theorem C08_chunk_indep_partial (chk : Bool) (fuel : Nat) (s₁ s₂ : Sched) (size₁ size₂ : Int)
     (h₁ : Clean s₁) (h₂ : Clean s₂) (hb : IsBytes (bytesOf s₁)) (heq : bytesOf s₁ = bytesOf s₂) :
     ∃ o₁ o₂, decodeOver chk fuel s₁ size₁ = .done o₁ ∧ decodeOver chk fuel s₂ size₂ = .done o₂ ∧ o₁.merge = o₂.merge := by
